@@ -23,6 +23,11 @@ def gen_case(tape: Tape, tier: str, clock_revealing: bool = False, force_backend
     if clock_revealing and be in ("mps-dmrg", "mps-noisy", "sv-lindblad"):
         be = "mps-tdvp" if be.startswith("mps") else "sv"  # the oracle needs unitary time evolution
     dur_class = tape.weighted(["normal", "tiny", "long"], [0.8, 0.1, 0.1], "dur_class")
+    # microsecond-long runs of the density-matrix solver with the energy observables: rounding accumulated over many
+    # coarse steps (a not exactly Hermitian rho) must not stop the run in the middle of its calendar
+    long_lindblad = be == "sv-lindblad" and not clock_revealing and tape.bool(0.35, "long_lindblad")
+    if long_lindblad:
+        dur_class = "long"
     if clock_revealing:
         n = tape.int(2, 4, "n_atoms")
         spacing = round(tape.float(7.0, 12.0, "spacing"), 2)
@@ -39,16 +44,26 @@ def gen_case(tape: Tape, tier: str, clock_revealing: bool = False, force_backend
             prof.update(dur=(1, 12), n_pulses=(1, 1), p_local=0.0, p_dmm=0.0, p_slm=0.0, p_modulation=0.0)
         elif dur_class == "long":
             prof.update(dur=(1000, 10000), n_pulses=(1, 1), p_local=0.1, p_dmm=0.0, p_slm=0.0, amp_max=1.0, det_max=1.0)
+            if long_lindblad:
+                # strongly interacting plaquette heated by the noise for several microseconds: <H^2> becomes large
+                prof.update(dur=(6000, 10000), n_atoms=(4, 4), layouts=["grid", "ring"], p_local=0.0, p_modulation=0.0)
         scn = S.gen_scenario(tape, prof)
         extra = {}
     seq = S.build_sequence(scn)
     T = float(seq.get_duration(include_fall_time=bool(scn.get("modulation"))))
     # dt: from 0.1 ns to above the duration, at most ~60 steps
     cands = [d for d in (0.1, 0.25, 0.5, 1.0, 2.5, 3.0, 7.0, 10.0, 25.0, 100.0, 333.0, 1000.0) if T / d <= (60 if tier == "quick" else 120)]
+    max_steps = 60 if tier == "quick" else 120
+    cands += [d for d in (0.3, 0.7, 1.1, 1.4, 2.3, 2.7) if T / d <= max_steps]
     cands += [T / k for k in (1, 2, 3, 7) if T / k >= 0.1] + [T + 5.0, T - 0.5 if T > 1 else T]
     dt = float(tape.choice(cands, "dt"))
+    # a dt that divides the duration in real numbers but not in floating point: the last multiple of dt is then
+    # 1 -+ 1 ulp in relative time (next to the explicit end point 1.0), or floor(T / dt) is one short
+    ragged = [k for k in range(2, max_steps + 1) if T / k >= 0.1 and (math.floor(T / (T / k)) != k or math.floor(T / (T / k)) * (T / k) / T != 1.0)]
+    if ragged and tape.bool(0.15, "dt_ragged"):
+        dt = T / float(tape.choice(ragged, "dt_ragged_k"))
     kinds = ["occupation", "energy", "bitstrings", "correlation_matrix", "energy_variance", "energy_second_moment"]
-    obs, dflt = S.gen_observables(tape, T, dt, kinds=kinds, always=["occupation"] if clock_revealing else None, shots=(1, 30))
+    obs, dflt = S.gen_observables(tape, T, dt, kinds=kinds, always=["occupation"] if clock_revealing else (["energy_second_moment", "energy_variance", "energy"] if long_lindblad else None), shots=(1, 30))
     cfg: dict[str, Any] = {"backend": "sv" if be.startswith("sv") else "mps", "dt": dt, "observables": obs, "default_times": dflt}
     if cfg["backend"] == "mps":
         cfg.update(precision=1e-8 if clock_revealing else tape.choice([1e-5, 1e-8], "precision"), max_bond_dim=1024, optimize=tape.bool(0.3, "optimize"), solver="dmrg" if be == "mps-dmrg" else "tdvp", autosave_dt=round(tape.float(10.5, 30.0, "autosave_dt"), 2))
@@ -57,6 +72,8 @@ def gen_case(tape: Tape, tier: str, clock_revealing: bool = False, force_backend
         # keep jumps rare enough for the run to stay cheap
         tot = sum(v for k, v in noise.items() if k.endswith("_rate")) + sum(noise.get("eff_noise_rates", []))
         f = min(1.0, 2.0 / max(1e-9, tot * len(scn["atoms"]) * T * 1e-3))
+        if long_lindblad:
+            f = min(1.0, 2.0 / tot)  # the master-equation solver has no jumps to pay for: total rate up to 2 / us
         for k in list(noise):
             if k.endswith("_rate"):
                 noise[k] = round(noise[k] * f, 6)
